@@ -102,7 +102,11 @@ pub fn configs(tier: Tier) -> Vec<Box<dyn Config>> {
         v.push(seeded(tier, false, 3));
         v.push(seeded_plan(Plan::Max, tier, true, 1));
         v.push(seeded_plan(Plan::Max, tier, false, 2));
+        v.push(seeded_plan(Plan::Last, tier, true, 1));
+        v.push(seeded_plan(Plan::Last, tier, false, 2));
+        v.push(seeded_plan(Plan::Tail, tier, false, 2));
         if !sse2 {
+            v.push(closed_core(Plan::Last, 9, tier, false));
             v.push(closed_core(Plan::Max, 12, tier, false));
             v.push(closed_core(Plan::Zero, 12, tier, true));
         }
@@ -124,6 +128,10 @@ pub fn configs(tier: Tier) -> Vec<Box<dyn Config>> {
         v.push(seeded_plan(Plan::Max, tier, true, 2));
         v.push(seeded_plan(Plan::Max, tier, false, 4));
         v.push(seeded_plan(Plan::Cluster(2), tier, false, 3));
+        v.push(seeded_plan(Plan::Last, tier, true, 2));
+        v.push(seeded_plan(Plan::Last, tier, false, 4));
+        v.push(seeded_plan(Plan::Tail, tier, true, 1));
+        v.push(seeded_plan(Plan::Tail, tier, false, 3));
     }
     v
 }
